@@ -3,6 +3,7 @@
 from __future__ import annotations
 
 import ast
+import json
 import os
 from dataclasses import dataclass
 from dataclasses import field
@@ -127,6 +128,41 @@ def _collect_imports(tree: ast.Module, modname: str, is_pkg: bool) -> dict[str, 
     return out
 
 
+_REFNAMES: dict | None = None
+NORMALISED: list[str] = []  # what the local normalisation did in this process (reported in the evidence)
+
+
+def _normalise_locals(rel: str, tree: ast.Module) -> None:
+    """Map locals renamed / extracted w.r.t. the reference tree back to the reference shape (see gv.canon)."""
+    global _REFNAMES
+    from gv import canon
+
+    if _REFNAMES is None:
+        path = Path(__file__).with_name("refnames.json")
+        _REFNAMES = json.loads(path.read_text()) if path.exists() else {}
+    if not _REFNAMES:
+        return
+
+    def visit(node, prefix):
+        for ch in ast.iter_child_nodes(node):
+            if isinstance(ch, ast.ClassDef):
+                visit(ch, f"{prefix}{ch.name}.")
+            elif isinstance(ch, FUNC_TYPES):
+                ref = _REFNAMES.get(f"{rel}::{prefix}{ch.name}")
+                if ref is not None:
+                    try:
+                        ren, inl = canon.normalise_locals(ch, ref)
+                    except Exception:  # noqa: BLE001 -- a normalisation problem must never break the analysis
+                        ren, inl = {}, []
+                    if ren or inl:
+                        NORMALISED.append(f"{rel}::{prefix}{ch.name}: renamed {ren}, inlined {inl}")
+                visit(ch, f"{prefix}{ch.name}.")
+            elif isinstance(ch, (ast.If, ast.Try, ast.With)):
+                visit(ch, prefix)
+
+    visit(tree, "")
+
+
 class Index:
     """Parsed view of ``src/gemseo``."""
 
@@ -172,6 +208,8 @@ class Index:
                 tree = ast.parse(src, filename=rel)
             except SyntaxError as e:
                 raise AnalysisError(f"cannot parse {rel}: {e}") from e
+            if os.environ.get("GV_NO_CANON") != "1":
+                _normalise_locals(rel, tree)
         mod = ModuleInfo(relpath=rel, modname=_modname(rel), tree=tree, source=src)
         if reuse is not None:
             mod.imports = reuse.imports
@@ -210,6 +248,13 @@ class Index:
                 stack.extend(c.nested.values())
 
     def _link(self) -> None:
+        if os.environ.get("GV_NO_CANON") != "1":
+            from gv import canon
+
+            funcs, classes = canon.build_signatures(self.modules.values())
+            self.signatures = (funcs, classes)
+            for mod in self.modules.values():
+                canon.canonicalise_calls(mod.tree, funcs, classes)
         for c in self._all_classes():
             self._classes_by_name.setdefault(c.name, []).append(c)
             self.n_functions += len(c.methods) + len(c.setters)
